@@ -1189,6 +1189,7 @@ func (e *Exec) applyContract(ct *Contract, fn *types.Func, sig *types.Signature,
 			e.assume(c.st, phi)
 			continue
 		}
+		preCheckedOf.Store(ct.PkgName+"."+ct.Key, true)
 		e.assert(c.st, name, "precondition", phi, rq.Text, e.prog.pos(call), e.modelVars(c.st, c.fr))
 	}
 	// termination of mutual recursion: functions whose decreases clause carries the same group ("decreases[group/level] m")
